@@ -1,39 +1,48 @@
-"""reference dict backends for C17, registered through mako's real plugin mechanism."""
+"""reference dict backends for C17, registered through mako's real plugin mechanism.
+
+The backends are written the documented way - subclasses of mako.cache.CacheImpl whose constructor calls the base
+constructor - and are therefore built against the CacheImpl of the mako under test: call install(CacheImpl) first."""
 LOG = []
 STORE = {}
+RefDict = RefDictCtx = None
 
 
-class RefDict:
-    pass_context = False
+def install(CacheImpl):
+    global RefDict, RefDictCtx
 
-    def __init__(self, cache):
-        self.cache = cache
+    class RefDict(CacheImpl):
+        pass_context = False
 
-    def _k(self, key):
-        return (self.cache.id, key)
+        def __init__(self, cache):
+            super().__init__(cache)
 
-    def get_or_create(self, key, creation_function, **kw):
-        LOG.append(("get_or_create", self.cache.id, key, dict(kw)))
-        k = self._k(key)
-        if k not in STORE:
-            STORE[k] = creation_function()
-        return STORE[k]
+        def _k(self, key):
+            return (self.cache.id, key)
 
-    def set(self, key, value, **kw):
-        LOG.append(("set", self.cache.id, key, dict(kw)))
-        STORE[self._k(key)] = value
+        def get_or_create(self, key, creation_function, **kw):
+            LOG.append(("get_or_create", self.cache.id, key, dict(kw)))
+            k = self._k(key)
+            if k not in STORE:
+                STORE[k] = creation_function()
+            return STORE[k]
 
-    def get(self, key, **kw):
-        LOG.append(("get", self.cache.id, key, dict(kw)))
-        return STORE.get(self._k(key))
+        def set(self, key, value, **kw):
+            LOG.append(("set", self.cache.id, key, dict(kw)))
+            STORE[self._k(key)] = value
 
-    def invalidate(self, key, **kw):
-        LOG.append(("invalidate", self.cache.id, key, dict(kw)))
-        STORE.pop(self._k(key), None)
+        def get(self, key, **kw):
+            LOG.append(("get", self.cache.id, key, dict(kw)))
+            return STORE.get(self._k(key))
 
+        def invalidate(self, key, **kw):
+            LOG.append(("invalidate", self.cache.id, key, dict(kw)))
+            STORE.pop(self._k(key), None)
 
-class RefDictCtx(RefDict):
-    pass_context = True
+    class RefDictCtx(RefDict):
+        pass_context = True
+
+    g = globals()
+    g["RefDict"], g["RefDictCtx"] = RefDict, RefDictCtx
 
 
 def reset():
